@@ -289,7 +289,7 @@ fn ref_type(x: &X, scope: &Vec<(String, Option<T>)>) -> Result<T, ()> {
                 _ => return Err(()),
             }
         }
-        X::TupAt(a, i) => match ref_type(a, scope)? {
+        X::TupAt(a, i) => match ref_type(a, scope)?.real() {
             Tup(ts) => {
                 if *i >= 0 && (*i as usize) < ts.len() {
                     ts[*i as usize].clone()
@@ -382,6 +382,65 @@ fn req_value(p: &str, e: &ContextProps) -> V {
     }
 }
 
+thread_local! {
+    /// when set, the reference evaluates every member of a tuple / array the moment the aggregate is evaluated.
+    /// The statement does not say whether aggregates are lazy: a dynamic error raised by a member that a lazy
+    /// evaluation would never have touched is an acceptable outcome, and so is the lazy value.
+    static STRICT: std::cell::Cell<bool> = std::cell::Cell::new(false);
+}
+
+fn ref_eval_strict(x: &X, env: &ContextProps) -> Result<V, D> {
+    STRICT.with(|s| s.set(true));
+    let r = ref_eval(x, env, &vec![]);
+    STRICT.with(|s| s.set(false));
+    r
+}
+
+fn strict_members(items: &[X], env: &ContextProps, scope: &Vec<(String, X, usize)>) -> Result<(), D> {
+    if STRICT.with(|s| s.get()) {
+        for it in items {
+            // (a member the reference cannot evaluate makes the strict outcome unknown)
+            ref_eval(it, env, scope)?;
+        }
+    }
+    Ok(())
+}
+
+type RScope = Vec<(String, X, usize)>;
+
+/// Finds the tuple / array literal an expression denotes, together with the scope that literal was written in
+/// (lexical scoping: members see the bindings that were visible where the aggregate appears in the source).
+fn resolve_agg(x: &X, env: &ContextProps, scope: &RScope) -> Result<Option<(Vec<X>, RScope)>, D> {
+    Ok(match x {
+        X::Tup(items) | X::Arr(items) => Some((items.clone(), scope.clone())),
+        X::Var(v) => match scope.iter().rposition(|(n, _, _)| n == v) {
+            Some(pos) => {
+                let (_, bx, depth) = &scope[pos];
+                resolve_agg(bx, env, &scope[..*depth].to_vec())?
+            }
+            None => None,
+        },
+        X::Let(bs, body) => {
+            let mut sc = scope.clone();
+            let depth = scope.len();
+            for (n, v) in bs {
+                sc.push((n.clone(), v.clone(), depth));
+            }
+            resolve_agg(body, env, &sc)?
+        }
+        X::If(c, y, n) => match ref_eval(c, env, scope)? {
+            V::Bool(true) => resolve_agg(y, env, scope)?,
+            V::Bool(false) => resolve_agg(n, env, scope)?,
+            _ => None,
+        },
+        X::TupAt(a, i) => match resolve_agg(a, env, scope)? {
+            Some((items, sc)) if *i >= 0 && (*i as usize) < items.len() => resolve_agg(&items[*i as usize], env, &sc)?,
+            _ => None,
+        },
+        _ => None,
+    })
+}
+
 /// Reference interpreter (lazy where the language is lazy). Only called on trees the reference typing accepts.
 fn ref_eval(x: &X, env: &ContextProps, scope: &Vec<(String, X, usize)>) -> Result<V, D> {
     use V::*;
@@ -389,7 +448,10 @@ fn ref_eval(x: &X, env: &ContextProps, scope: &Vec<(String, X, usize)>) -> Resul
         X::Int(i) => Int(*i),
         X::Bool(b) => Bool(*b),
         X::Str(s) => Str(s.clone()),
-        X::Arr(_) | X::Tup(_) => Lazy,
+        X::Arr(items) | X::Tup(items) => {
+            strict_members(items, env, scope)?;
+            Lazy
+        }
         X::Var(v) => {
             // lazily evaluate the binding in the scope that was current where the let appeared
             let pos = scope.iter().rposition(|(n, _, _)| n == v).ok_or(D::Unspecified)?;
@@ -433,10 +495,11 @@ fn ref_eval(x: &X, env: &ContextProps, scope: &Vec<(String, X, usize)>) -> Resul
                     if matches!(a_v, Lazy | Native(_)) {
                         return Err(D::Unspecified);
                     }
-                    if let X::Arr(items) = &**b {
+                    if let Some((items, isc)) = resolve_agg(b, env, scope)? {
+                        strict_members(&items, env, &isc)?;
                         // members are evaluated one by one until a match is found
-                        for it in items {
-                            if ref_eval(it, env, scope)? == a_v {
+                        for it in &items {
+                            if ref_eval(it, env, &isc)? == a_v {
                                 return Ok(Bool(true));
                             }
                         }
@@ -497,7 +560,10 @@ fn ref_eval(x: &X, env: &ContextProps, scope: &Vec<(String, X, usize)>) -> Resul
                         _ => ord != Equal,
                     })
                 }
-                ("=~", Str(_), Str(_)) | ("!~", Str(_), Str(_)) => return Err(D::Unspecified),
+                ("=~", Str(_), Str(re)) | ("!~", Str(_), Str(re)) => {
+                    // validity of the pattern is decided (an invalid one is a dynamic error); the match itself is not modelled
+                    return Err(if regex::Regex::new(&re).is_err() { D::Regex } else { D::Unspecified });
+                }
                 _ => return Err(D::Unspecified),
             }
         }
@@ -519,20 +585,24 @@ fn ref_eval(x: &X, env: &ContextProps, scope: &Vec<(String, X, usize)>) -> Resul
                 Int(i) => i,
                 _ => return Err(D::Unspecified),
             };
-            match &**a {
-                X::Arr(items) => {
+            match resolve_agg(a, env, scope)? {
+                Some((items, isc)) => {
+                    strict_members(&items, env, &isc)?;
                     let n = items.len() as i64;
                     let idx = if iv >= 0 { iv } else { n.checked_add(iv).ok_or(D::Index)? };
                     if idx < 0 || idx >= n {
                         return Err(D::Index);
                     }
-                    ref_eval(&items[idx as usize], env, scope)?
+                    ref_eval(&items[idx as usize], env, &isc)?
                 }
-                _ => return Err(D::Unspecified),
+                None => return Err(D::Unspecified),
             }
         }
-        X::TupAt(a, i) => match &**a {
-            X::Tup(items) if *i >= 0 && (*i as usize) < items.len() => ref_eval(&items[*i as usize], env, scope)?,
+        X::TupAt(a, i) => match resolve_agg(a, env, scope)? {
+            Some((items, isc)) if *i >= 0 && (*i as usize) < items.len() => {
+                strict_members(&items, env, &isc)?;
+                ref_eval(&items[*i as usize], env, &isc)?
+            }
             _ => return Err(D::Unspecified),
         },
         X::Call(f, args) => match (*f, args.as_slice()) {
@@ -619,6 +689,20 @@ fn kind_matches(t: &Type, v: &Value) -> bool {
         _ => false,
     }
 }
+
+/// the error texts of the inherently dynamic failures (division by zero, overflow, shift range, index range,
+/// invalid regular expression, non-numeric string); anything else at evaluation time is a type error
+const DYNAMIC_ERRORS: [&str; 9] = [
+    "division by zero",
+    "integer overflow",
+    "shift amount out of range",
+    "failed to compile regex",
+    "failed to parse integer",
+    "index out of bounds",
+    "index out of range",
+    "failed to cast index from i64",
+    "tuple index out of bounds",
+];
 
 fn norm_panic(msg: &str) -> String {
     // strip numbers so that the class is the kind of panic, not the operands
@@ -769,7 +853,19 @@ impl<'a> Runner<'a> {
                     format!("panic:{}", class)
                 }
                 Ok(Err(e)) => {
-                    if let Some(Ok(v)) = &rref {
+                    // whatever the reference thinks: a failure that is not one of the inherently dynamic errors is a
+                    // type error raised at request time by an expression the checker accepted
+                    let msg = e.to_string();
+                    if !DYNAMIC_ERRORS.iter().any(|p| msg.contains(p)) {
+                        self.chk.violation(
+                            "milu.soundness",
+                            &format!("type-error-at-request-time:{}", top_op(x)),
+                            format!("accepted (type {}) but evaluation fails with a non-dynamic error [env {}]: {text}: {}", type_name(&ty), self.envs[ei].name, truncate(&msg, 140)),
+                            json!({"expr": text, "env": self.envs[ei].name, "static_type": type_name(&ty), "error": msg}),
+                        );
+                    }
+                    let strict_fails = ref_eval_strict(x, &self.envs[ei].props).is_err();
+                    if let (Some(Ok(v)), false) = (&rref, strict_fails) {
                         self.chk.violation(
                             "milu.eval",
                             &format!("error-where-value-expected:{}", top_op(x)),
@@ -985,6 +1081,68 @@ pub fn one_level(atoms: &[X], cond_atoms: &[X], mut emit: impl FnMut(X)) {
     }
 }
 
+/// Scoping family: aggregates (tuples, arrays) whose members mention let-bound names, used after the name has
+/// been re-bound, after the aggregate has left the scope it was written in, or through another binding.
+pub fn scoping_family(mut emit: impl FnMut(X)) {
+    let v = |n: &str| X::Var(n.to_string());
+    let bx = |x: X| Box::new(x);
+    let s = |t: &str| X::Str(t.to_string());
+    let let1 = |n: &str, val: X, body: X| X::Let(vec![(n.to_string(), val)], Box::new(body));
+    let lits = [X::Int(1), s("s"), X::Bool(true), X::Int(i64::MAX)];
+    let values = |x: &str| -> Vec<X> {
+        vec![
+            v(x),
+            X::Tup(vec![v(x), X::Int(1)]),
+            X::Tup(vec![X::Bin("+", bx(v(x)), bx(X::Int(1))), X::Int(2)]),
+            X::Arr(vec![v(x)]),
+            X::If(bx(X::Bool(true)), bx(X::Tup(vec![v(x), X::Int(1)])), bx(X::Tup(vec![v(x), X::Int(1)]))),
+            let1("y", v(x), X::Tup(vec![v("y"), X::Int(1)])),
+            let1(x, X::Int(7), X::Tup(vec![v(x), v(x)])),
+            X::Tup(vec![X::Tup(vec![v(x), X::Int(1)]), X::Int(2)]),
+            X::Tup(vec![X::Tmpl(vec![s("p"), v(x)]), X::Int(1)]),
+            X::Tup(vec![X::Bin("/", bx(X::Int(1)), bx(X::Int(0))), v(x)]),
+        ]
+    };
+    let uses = |a: &str, x: &str| -> Vec<X> {
+        let at = |i: i64| X::TupAt(bx(v(a)), i);
+        vec![
+            v(a),
+            v(x),
+            at(0),
+            at(1),
+            X::Bin("+", bx(at(0)), bx(X::Int(1))),
+            X::Bin("=~", bx(at(0)), bx(s("s"))),
+            X::Bin("==", bx(at(0)), bx(v(x))),
+            X::Index(bx(v(a)), bx(X::Int(0))),
+            X::Bin("_:", bx(v(x)), bx(v(a))),
+            X::TupAt(bx(at(0)), 0),
+            X::Tmpl(vec![at(0)]),
+            X::Call("to_string", vec![at(0)]),
+            X::If(bx(X::Bin("==", bx(at(1)), bx(X::Int(1)))), bx(at(0)), bx(at(0))),
+            X::TupAt(bx(X::Tup(vec![at(0), v(x)])), 0),
+            let1("b", at(0), X::Bin("+", bx(v("b")), bx(X::Int(1)))),
+            let1("b", v(a), X::TupAt(bx(v("b")), 0)),
+        ]
+    };
+    for l1 in &lits {
+        for val in values("x") {
+            for u in uses("a", "x") {
+                // aggregate bound, used without re-binding
+                emit(let1("x", l1.clone(), let1("a", val.clone(), u.clone())));
+                // the aggregate leaves the scope of the name it mentions
+                emit(let1("a", let1("x", l1.clone(), val.clone()), u.clone()));
+                // sibling bindings do not see each other
+                emit(X::Let(vec![("x".into(), l1.clone()), ("a".into(), val.clone())], Box::new(u.clone())));
+                for l2 in &lits {
+                    // the name is re-bound (to a value of another type, too) before the aggregate is used
+                    emit(let1("x", l1.clone(), let1("a", val.clone(), let1("x", l2.clone(), u.clone()))));
+                    emit(let1("x", l1.clone(), X::Let(vec![("a".into(), val.clone()), ("x".into(), l2.clone())], Box::new(u.clone()))));
+                }
+            }
+        }
+    }
+}
+
 #[test]
 fn check() {
     let chk = Check::new("C08");
@@ -1070,6 +1228,19 @@ fn check() {
         samples.push(show(&d3[d3.len() / 2]));
     }
 
+    // scoping family (exhaustive over its grammar)
+    let mut sf: Vec<X> = vec![];
+    scoping_family(|x| sf.push(x));
+    let acc_before = runner.accepted.load(Ordering::Relaxed);
+    par_for(sf.len(), |i| {
+        runner.run(&sf[i]);
+    });
+    let sf_accepted = runner.accepted.load(Ordering::Relaxed) - acc_before;
+    if sf_accepted < 300 {
+        machinery(format!("vacuous scoping family: {} of {} accepted", sf_accepted, sf.len()));
+    }
+    samples.push(show(&sf[sf.len() / 2 + 7]));
+
     let trees = runner.trees.load(Ordering::Relaxed);
     let accepted = runner.accepted.load(Ordering::Relaxed);
     let evals = runner.evals.load(Ordering::Relaxed);
@@ -1080,10 +1251,10 @@ fn check() {
         "exhaustive": true,
         "states": runner.outcomes.len(), "transitions": evals + trees, "traces_validated_against_impl": trees,
         "evaluations": trees, "distinct_nontrivial": accepted,
-        "rule": "all trees with one operator node over the leaf set (depth 1, exhaustive); all trees with one operator node over leaves + one representative depth-1 tree per (static type, outcome vector) class (depth 2); thorough adds a depth-3 slice. non-trivial = accepted by the real checker (then evaluated under up to 6 request environments). states = distinct (static type, per-environment outcome) vectors",
+        "rule": "all trees with one operator node over the leaf set (depth 1, exhaustive); all trees with one operator node over leaves + one representative depth-1 tree per (static type, outcome vector) class (depth 2); thorough adds a depth-3 slice; scoping family: 4 literals x 10 aggregate shapes mentioning a let-bound name x 16 uses x {plain, aggregate leaves the name's scope, sibling binding, name re-bound to each of 4 literals (nested / same let)}. non-trivial = accepted by the real checker (then evaluated under up to 6 request environments). states = distinct (static type, per-environment outcome) vectors",
         "trees": trees, "accepted_by_checker": accepted, "rejected_by_checker": runner.rejected.load(Ordering::Relaxed),
         "evaluations_run": evals, "compared_with_reference_value": runner.ref_compared.load(Ordering::Relaxed),
-        "leaves": leaves.len(), "depth1": d1.len(), "depth2_atoms": atoms2.len(), "depth2": d2.len(), "depth3": d3n,
+        "leaves": leaves.len(), "depth1": d1.len(), "depth2_atoms": atoms2.len(), "depth2": d2.len(), "depth3": d3n, "scoping_family": sf.len(), "scoping_family_accepted": sf_accepted,
         "environments": envs.iter().map(|e| e.name).collect::<Vec<_>>(),
         "samples": samples,
     });
